@@ -19,9 +19,9 @@ C = {
  'C12': ("model-based property testing: histories of new/increase_capacity/serialization round-trips compared with a history-free reference derivation; distinctness, subgroup, pinned digests, cross-process digest, 300 / 65 600 parties, views consumed through nth / skip / step_by / count / last, clone_from, one step beyond 2^17 generators",
          "Stateful generated histories against a reference table; all (n,m) views incl. n=0/m=0; pinned digests from the reference revision.",
          "Trusted: the curve's point sampler (shared with the code under test); SHA3/ChaCha crates.", "3/C12"),
- 'C13': ("property-based testing: (v,r) over the full field (boundary classes, limb patterns, random) and arbitrary bases (incl. equal, swapped, identity, small-order-component and dependent bases B̃ = k·B with openings v = ±k·r) against an independent double-and-add reference and the homomorphism laws; Prover::commit in runs interleaved with gates and constraints",
+ 'C13': ("property-based testing: (v,r) over the full field (boundary classes, limb patterns, random) and arbitrary bases (incl. equal, swapped, identity (either base), small-order-component and dependent bases B̃ = k·B with openings v = ±k·r) against an independent double-and-add reference and the homomorphism laws; Prover::commit in runs interleaved with gates and constraints",
          "Algebraic laws and a differential reference over generated openings and bases.", "Trusted: point addition/doubling of arkworks.", "3/C13"),
- 'C15': ("property-based testing: generated expression trees over every operator impl (incl. term lists of hundreds of terms, running sums of up to 9 100 steps, variables with indices beyond 2^16, constraints spelled before the variables exist with hand-built handles); oracle = own tree evaluation; accept at the reference value, reject at value+delta",
+ 'C15': ("property-based testing: generated expression trees over every operator impl (incl. term lists of hundreds of terms, running sums of up to 9 100 steps, variables with indices beyond 2^16, constraints spelled before the variables exist with hand-built handles, expressions as multiply operands); oracle = own tree evaluation; accept at the reference value, reject at value+delta",
          "Every operator impl is exercised by generated trees whose meaning is decided by an independent evaluator through the prove/verify verdict.",
          "Trusted: own evaluator; C01/C02 behaviour of the proof system on one-constraint circuits.", "3/C15"),
  'C16': ("model-based property testing: generated call sequences (up to hundreds of calls, and sequences crossing gate index 2^16 / 2^17 / 2^18); call-by-call handle equality prover = verifier = allocation state machine; missing-assignment error that leaves no trace (gate count unchanged, recovery continues as the plain sequence)",
@@ -37,10 +37,10 @@ C.update({
  'C04': ("exhaustive single-bit flips of accepted proofs + proptest-generated single-field edits / swaps / one-sided list growth / round edits / byte edits / compensating pair edits built from the honest run's coefficients, opposite copies in a batch, verifier holding a generator object that overstates its capacity (+ libFuzzer c04_malleate in the thorough tier); oracle = decode error or verification error or identical object",
          "Mutation of accepted proofs: all bit flips of several proofs per curve, and generated structured edits through the mirror.",
          "Trusted: mirror layout; 'identical object' = re-encodes to the original bytes. Forgery resistance beyond the enumerated edits is a cryptographic assumption.", "3/C04"),
- 'C05': ("metamorphic property-based testing: accepted (program, proof) × one verifier-side statement/context deviation (commitments replaced by V+B, V+B̃, random, another V, −V, mirror point, 2V, V+T, off-curve object with the same compressed encoding; changed multiply operands; extra / missing / reordered commitments; coefficients and constants; labels and application data incl. ~80-byte labels sharing a 64-byte prefix; bases), checked through verify and through batch_verify (alone, beside the honest instance, with the opposite deviation); oracle = circuit model says unsatisfied or the deviation changes bound context => verify Err; cross-verification of same-structure statements",
+ 'C05': ("metamorphic property-based testing: accepted (program, proof) × one verifier-side statement/context deviation (commitments replaced by V+B, V+B̃, random, another V, −V, mirror point, 2V, V+T, off-curve object with the same compressed encoding; changed multiply operands; weight probe over 25 000 / 300 000 contexts; extra / missing / reordered commitments; coefficients and constants; labels and application data incl. ~80-byte labels sharing a 64-byte prefix; bases), checked through verify and through batch_verify (alone, beside the honest instance, with the opposite deviation); oracle = circuit model says unsatisfied or the deviation changes bound context => verify Err; cross-verification of same-structure statements",
          "Every deviation class the property names is generated; deviations the committed values still satisfy carry no expectation.",
          "Trusted: circuit model for 'unsatisfied'.", "3/C05"),
- 'C06': ("trace-invariant property testing over the instrumented Merlin log: protocol schedule as ordered required subsequence with full payload encodings, no early/extra challenge, application challenge labels passed on exactly, prover ops == verifier ops, returned transcripts agree, fork for the combination weight after the last message, verifier runs on altered proofs absorb the altered elements",
+ 'C06': ("trace-invariant property testing over the instrumented Merlin log: protocol schedule as ordered required subsequence with full payload encodings, no early/extra challenge, application challenge labels passed on exactly, separators of a statement and of its one-phase part differ, prover ops == verifier ops, returned transcripts agree, fork for the combination weight after the last message, verifier runs on altered proofs absorb the altered elements",
          "Observation of every transcript operation of both roles on generated programs (one/two phase, user data, bad witnesses) against the schedule as data.",
          "Trusted: vendored merlin instrumentation (additive, KAT-checked against the registry crate); schedule.rs as the protocol order.", "3/C06"),
  'C07': ("differential property-based testing: generated batches (mixed sizes/phases/order, invalid members at all positions, cancelling ±d sets, capacity-insufficient members, long batches, clean-room-prover members incl. partially filled / balanced second-phase slots) + distance sweep of a cancelling pair inside batches of up to 520 members, weight-ratio sweep, binomial error patterns at equally spaced positions, pairs a multiple of 2^10 apart in batches up to 8192, batches of 1 025 .. 20 011 members with one invalid member; oracle = batch verdict == AND of individual verdicts",
@@ -52,7 +52,7 @@ C.update({
  'C10': ("differential property-based testing of the inner-product argument for k = 0..7 (plus fixed n = 256/512/1024 instances; thorough k <= 10): create -> k rounds; verify vs explicit-folding reference and closed form; 23 negative edits incl. non-power-of-two claimed lengths, −P and the other point with P's x-coordinate",
          "Generated vectors/factors/bases incl. degenerate rounds; both directions (accept correct openings, reject everything else) against a reference verifier.",
          "Trusted: refverify::ref_ipp; access through the guarded re-export.", "3/C10"),
- 'C14': ("property-based testing + independent big-integer arithmetic: source literals vs compiled constants, agreement of every declaration of the two field moduli (types, Montgomery configurations, curve configuration), Miller–Rabin, curve equation, r·P = O on generated points (own affine arithmetic and compiled), Hasse-interval uniqueness, mul_by_a on generated field elements incl. elements chosen by their Montgomery residue, multiples k·P for integers k beyond r",
+ 'C14': ("property-based testing + independent big-integer arithmetic: source literals vs compiled constants, agreement of every declaration of the two field moduli (types, Montgomery configurations, curve configuration), Miller–Rabin, curve equation, r·P = O on generated points (own affine arithmetic and compiled), Hasse-interval uniqueness, mul_by_a on generated field elements incl. elements chosen by their Montgomery residue, multiples k·P for integers k beyond r (also 2^256 − small), multi-scalar sums of up to 16 384 / 40 000 terms",
          "Number-theoretic facts checked with independent big-int code; universally quantified parts (mul_by_a, r·P) by generated inputs.",
          "Trusted: num-bigint; Miller–Rabin error < 4^-76; Hasse bound.", "3/C14"),
  'C18': ("replay of 99 recorded fixtures (verdicts, wrong statements, transcript logs, field layout, generator digests) + differential property-based testing against the frozen reference revision in both directions",
